@@ -171,7 +171,13 @@ func GenPlacementScript(t *rapid.T, thorough bool) *Script {
 			p.NodeSelector, p.NodeAffinity, p.Tolerations, p.PodAffinity = sel, aff, tol, paff
 		}
 		// hierarchical sub-groups: a parent set over the first two pod sets
-		if len(wl.SubGroups) >= 2 && chance(t, "hier", 35) {
+		flat := true
+		for _, sg := range wl.SubGroups {
+			if sg.Parent != "" {
+				flat = false
+			}
+		}
+		if flat && len(wl.SubGroups) >= 2 && chance(t, "hier", 35) {
 			parent := SubGroupSpec{Name: "top0", MinMember: 1}
 			if chance(t, "hiertopo", 70) {
 				parent.Topo = genTopo("ptopo")
@@ -183,7 +189,13 @@ func GenPlacementScript(t *rapid.T, thorough bool) *Script {
 			wl.Topo = genTopo("wtopo")
 		}
 		for k := range wl.SubGroups {
-			if wl.SubGroups[k].Name != "top0" && chance(t, "sgtopo", 25) {
+			innerNode := false
+			for _, o2 := range wl.SubGroups {
+				if o2.Parent == wl.SubGroups[k].Name {
+					innerNode = true
+				}
+			}
+			if !innerNode && chance(t, "sgtopo", 25) {
 				wl.SubGroups[k].Topo = genTopo("sgtopo")
 				if wl.Topo != nil && wl.SubGroups[k].Topo.Topology != "no-such-topology" {
 					wl.SubGroups[k].Topo.Topology = wl.Topo.Topology // nested constraints name one tree
